@@ -15,7 +15,9 @@ try:
     r = subprocess.run(['git', '-C', wt, 'apply', os.path.join(d, 'patch.diff')], capture_output=True, text=True)
     if r.returncode: print('PATCH DOES NOT APPLY', r.stderr); sys.exit(3)
     os.makedirs(out, exist_ok=True)
-    env = dict(os.environ, VERIF_REPO=wt, VERIF_OUT=out, VERIF_NO_EXTRAS='1')
+    # the proof cache is content-addressed (sha of the woven C file + stubs + harness line): spec files the change does not reach hit the
+    # cache of the unchanged tree, only the specs whose extracted text changed are re-verified
+    env = dict(os.environ, VERIF_REPO=wt, VERIF_OUT=out, VERIF_NO_EXTRAS='1', VERIF_CACHE=os.environ.get('VERIF_CACHE') or os.path.join(V, 'build', 'cache'))
     for pid in pids:
         t0 = time.time()
         r = subprocess.run([os.path.join(V, 'check'), pid, '--jobs', '8'], capture_output=True, text=True, env=env, cwd=V)
